@@ -59,6 +59,14 @@ pub(crate) fn read_escaped_string(
             if let Some((_, next_char)) = chars.next() {
                 match next_char {
                     '\n' | '"' | '\'' | '\\' => value.push(next_char as u8),
+                    '\r' => {
+                        // a backslash followed by a line break written `\r` or `\r\n` is a
+                        // single line feed, as for `\n`
+                        value.push(b'\n');
+                        if chars.peek().filter(|(_, char)| *char == '\n').is_some() {
+                            chars.next();
+                        }
+                    }
                     'n' => value.push(b'\n'),
                     't' => value.push(b'\t'),
                     'a' => value.extend("\u{7}".as_bytes()),
